@@ -62,6 +62,7 @@ type Ctx struct {
 	initPoisoned          map[*MapV]bool
 	syllableConvertFolded bool
 	playPipelineChecked   bool
+	diatonicKeyProblem    map[string]string
 	inputFree             map[*ssa.Function]bool
 	playPipeFold          map[int]*foldVerdict
 	lexProduced           map[string]bool
